@@ -321,7 +321,9 @@ def run(ctx):
             ({"n": 2, "hist": "LEL", "shape": "image", "mt": "oci", "comp": "none", "data": 0, "refs": 0, "ext": 0}, [{"k": "LayerDigest", "a": "sha512", "v": "", "i": 0}, {"k": "Compress", "a": "gzip", "v": "", "i": 0}], "cross", "dir"),
             ({"n": 2, "hist": "LEL", "shape": "image", "mt": "oci", "comp": "gzip", "data": 0, "refs": 0, "ext": 1}, [{"k": "ExternalURLsRm", "a": "", "v": "", "i": 0}], "cross", "reg"),
             ({"n": 3, "hist": "LELL", "shape": "image", "mt": "oci", "comp": "gzip", "data": 0, "refs": 0, "ext": 0}, [{"k": "Rebase", "a": "", "v": "", "i": 0}], "same-tag", "dir"),
-            ({"n": 3, "hist": "LELL", "shape": "index", "mt": "oci", "comp": "gzip", "data": 0, "refs": 1, "ext": 0}, [{"k": "Rebase", "a": "", "v": "", "i": 0}], "same-replace", "reg")]):
+            ({"n": 3, "hist": "LELL", "shape": "index", "mt": "oci", "comp": "gzip", "data": 0, "refs": 1, "ext": 0}, [{"k": "Rebase", "a": "", "v": "", "i": 0}], "same-replace", "reg"),
+            ({"n": 1, "hist": "L", "shape": "index", "mt": "oci", "comp": "gzip", "data": 1, "refs": 1, "ext": 0}, [{"k": "ManifestDigest", "a": "sha512", "v": "", "i": 0}], "same-tag", "reg"),
+            ({"n": 1, "hist": "L", "shape": "image", "mt": "oci", "comp": "gzip", "data": 0, "refs": 1, "ext": 0}, [{"k": "ManifestDigest", "a": "sha512", "v": "", "i": 0}], "same-digest", "dir")]):
         must.append(concretize({"img": img, "prog": prog, "place": cls, "src": src, "noop": 0}, rng))
     scns += extra + must
     for i, s in enumerate(scns):
@@ -370,7 +372,7 @@ def run(ctx):
                 sub = copy.deepcopy(s)
                 sub.pop("expect", None)
                 sub["prog"] = [s["prog"][j] for j in idx]      # (a part of a no-op program is a no-op program)
-                ident = json.dumps([sub["img"], sub["prog"], sub["place"], sub["tgt"]], sort_keys=True)
+                ident = json.dumps([sub["img"], sub["prog"], sub["place"], sub["tgt"], sub["noop"]], sort_keys=True)
                 if ident not in cache:
                     sub["id"] = "m%d" % len(subs)
                     cache[ident] = sub["id"]
